@@ -33,6 +33,16 @@ def width_family():
                          bytes([n]) + bytes((53 * k + 7) % 256 for k in range(n * w))))
         seqc = {'move': None, 'body': ('seq', ('leaf', ('int', w, False, None, 0)), (('lit', 9), 'const'), None, None, None, None)}
         fams.append(([seqc, {'move': None, 'body': ('elem', ('leaf', ('int', 1, False, None, 0)))}], None, bytes((29 * k + 3) % 256 for k in range(9 * w + 1))))
+    # a PRESENT optional field (its condition holds) as the last field: an input that ends exactly where it should begin, or inside it,
+    # must fail -- never "absent after all"
+    condp = ('bin', 'Eq', ('bin', 'BAnd', ('field', 0), ('lit', 1)), ('lit', 1))
+    for el, tailbytes in ((('leaf', ('int', 2, False, None, 0)), b'\x12\x34'), (('leaf', ('int', 3, True, 'little', 0)), b'\x01\x02\x83'),
+                          (('leaf', ('int', 1, False, None, 0)), b'\x7f'), (('leaf', ('dsized', ('lit', 2), 'const', b'')), b'ab')):
+        for how in ('expr', 'lambda'):
+            fams.append(([{'move': None, 'body': ('elem', ('leaf', ('int', 1, False, None, 0)))},
+                          {'move': None, 'body': ('opt', el, (condp, how), None)}], None, b'\x01' + tailbytes))
+    fams.append(([{'move': None, 'body': ('elem', ('leaf', ('int', 1, False, None, 0)))}, {'move': None, 'body': ('elem', ('leaf', ('int', 1, False, None, 0)))},
+                  {'move': None, 'body': ('opt', ('leaf', ('dsized', ('field', 1), 'field', b'')), (condp, 'expr'), None)}], None, b'\x03\x02xy'))
     return fams
 
 
